@@ -29,6 +29,38 @@
 // an intrinsic and the compiler thinks we don't need to reference std::mem anymore, but we
 // do because that intrinsic is unstable.
 
+// Verification hooks: named points and failure injection. These expand to
+// nothing unless the `verif` cargo feature is enabled.
+#[cfg(feature = "verif")]
+macro_rules! vpoint {
+    ($name:expr) => {
+        crate::verif::point($name)
+    };
+}
+#[cfg(not(feature = "verif"))]
+macro_rules! vpoint {
+    ($name:expr) => {};
+}
+#[cfg(feature = "verif")]
+macro_rules! vfail {
+    ($name:expr) => {
+        if crate::verif::fail($name) {
+            return Err(crate::error::InnerError::General(format!(
+                "verif: injected failure at {}",
+                $name
+            ))
+            .into());
+        }
+    };
+}
+#[cfg(not(feature = "verif"))]
+macro_rules! vfail {
+    ($name:expr) => {};
+}
+
+#[cfg(feature = "verif")]
+pub mod verif;
+
 mod error;
 pub use error::{Error, InnerError};
 
@@ -81,9 +113,11 @@ impl Store {
         extra_table_names: Vec<&'static str>,
     ) -> Result<Store, Error> {
         let dir = directory.as_ref().to_owned();
+        vpoint!("new.begin");
 
         // Create the directory if it doesn't exist, ignoring errors
         let _ = fs::create_dir(&dir);
+        vpoint!("new.after_mkdir");
 
         let mut events_path = dir.clone();
         events_path.push("event.map");
@@ -93,9 +127,12 @@ impl Store {
 
         // Create the lmdb subdir if it doesn't exist, ignoring errors
         let _ = fs::create_dir(&indexes_path);
+        vpoint!("new.after_mkdir_lmdb");
 
         let events = EventStore::new(&events_path)?;
+        vpoint!("new.after_event_store");
         let indexes = Lmdb::new(&indexes_path, &extra_table_names)?;
+        vpoint!("new.after_lmdb");
 
         Ok(Store {
             events,
@@ -285,12 +322,15 @@ impl Store {
     pub fn store_event(&self, event: &Event) -> Result<u64, Error> {
         // TBD: should we validate the event?
 
+        vpoint!("store.begin");
         let mut txn = self.indexes.write_txn()?;
+        vpoint!("store.after_write_txn");
 
         // Return Duplicate if it already exists
         if self.indexes.get_offset_by_id(&txn, event.id())?.is_some() {
             return Err(InnerError::Duplicate.into());
         }
+        vpoint!("store.after_dup_check");
 
         // Handle deleted events
         {
@@ -331,6 +371,8 @@ impl Store {
                 }
             }
         }
+
+        vpoint!("store.after_deleted_checks");
 
         // Pre-remove replaceable events being replaced
         {
@@ -377,20 +419,30 @@ impl Store {
             }
         }
 
+        vpoint!("store.after_preremove");
+        vfail!("store.after_preremove");
+
         // Store the event
         let offset = self.events.store_event(event)? as u64;
+        vpoint!("store.after_append");
+        vfail!("store.after_append");
 
         // Index the event
         if !event.kind().is_ephemeral() {
             self.indexes.index(&mut txn, event, offset)?;
         }
+        vpoint!("store.after_index");
+        vfail!("store.after_index");
 
         // Handle deletion events
         if event.kind() == 5.into() {
             self.handle_deletion_event(&mut txn, event)?;
         }
+        vpoint!("store.before_commit");
+        vfail!("store.before_commit");
 
         txn.commit()?;
+        vpoint!("store.after_commit");
 
         Ok(offset)
     }
@@ -446,6 +498,8 @@ impl Store {
                     }
                 }
             }
+            vpoint!("delete.after_tag");
+            vfail!("delete.after_tag");
         }
 
         Ok(())
@@ -459,7 +513,9 @@ impl Store {
     /// Get an event by Id
     pub fn get_event_by_id(&self, id: Id) -> Result<Option<&Event>, Error> {
         let txn = self.indexes.read_txn()?;
+        vpoint!("get_by_id.after_read_txn");
         if let Some(offset) = self.indexes.get_offset_by_id(&txn, id)? {
+            vpoint!("get_by_id.after_lookup");
             unsafe { Some(self.events.get_event_by_offset(offset as usize)).transpose() }
         } else {
             Ok(None)
@@ -509,6 +565,7 @@ impl Store {
         };
 
         let txn = self.indexes.read_txn()?;
+        vpoint!("find.after_read_txn");
 
         // We insert into a BTreeSet to keep them time-ordered
         let mut output: BTreeSet<&Event> = BTreeSet::new();
@@ -793,6 +850,8 @@ impl Store {
             }
         }
 
+        vpoint!("find.after_scan");
+
         // Convert to a Vec, reverse time order, and apply limit
         let events = output
             .iter()
@@ -905,6 +964,8 @@ impl Store {
 
         // Remove from indexes
         self.indexes.deindex(txn, event)?;
+        vpoint!("remove.between_deindex");
+        vfail!("remove.between_deindex");
 
         // Also remove from the id index
         self.indexes.deindex_id(txn, event.id())?;
@@ -914,9 +975,13 @@ impl Store {
 
     /// This removes an event without marking it as having been deleted by another event
     pub fn remove_event(&self, id: Id) -> Result<(), Error> {
+        vpoint!("remove_event.begin");
         let mut txn = self.indexes.write_txn()?;
+        vpoint!("remove_event.after_write_txn");
         self.remove_by_id(&mut txn, id)?;
+        vpoint!("remove_event.before_commit");
         txn.commit()?;
+        vpoint!("remove_event.after_commit");
         Ok(())
     }
 
@@ -1007,6 +1072,7 @@ impl Store {
     ///
     /// Caller is responsible for verifying the event and its relay tag
     pub fn vanish(&self, event: &Event) -> Result<(), Error> {
+        vpoint!("vanish.begin");
         // delete all events with this pubkey
         let tags = OwnedTags::empty();
         let filter = OwnedFilter::new(&[], &[event.pubkey()], &[], &tags, None, None, None)?;
@@ -1014,7 +1080,9 @@ impl Store {
             self.find_events(&filter, true, 0, 0, |_| ScreenResult::Match)?;
         for event in authored_events.iter() {
             self.remove_event(event.id())?;
+            vpoint!("vanish.after_removal");
         }
+        vpoint!("vanish.before_giftwraps");
 
         // delete giftwraps that p-tag this pubkey
         let tags = OwnedTags::new(&[vec!["p", &event.pubkey().as_hex_string()]])?;
@@ -1023,7 +1091,9 @@ impl Store {
             self.find_events(&filter, true, 0, 0, |_| ScreenResult::Match)?;
         for event in giftwrap_events.iter() {
             self.remove_event(event.id())?;
+            vpoint!("vanish.after_removal");
         }
+        vpoint!("vanish.end");
 
         Ok(())
     }
